@@ -8,6 +8,12 @@ ENGINES = [
 ]
 NOT_APPLICABLE = {}
 CLAIMED = {
+ "C16": {
+  "engine": "tlc + csl-conform (spec/sys/DedupSets.tla, spec/mc/MC_DedupSets.tla, spec/trace/Trace_DedupSets.tla, Trace_TxBuilder.tla; harness sets + builder drivers)",
+  "technique": "L1 TLA+ model of a vector + membership index with three arrival paths, model-checked against L0 (first-occurrence subsequence, no duplicates, index consistent) over all histories; each history is executed on 7 real set types and 3 witness-set setters through new / tagged CBOR / untagged CBOR / JSON constructors and add(); TLC parses the serialized bytes and compares element spans, order, tag 258, len/get/add results with the first-occurrence subsequence; all orders of asset insertion are checked for canonical key order in Value, Mint and the builder's mint field; Build;Build and duplicate-free witness sets are checked on the builder traces",
+  "text": "Exhaustive on the model and on the real types for histories of <= 5 arrivals over 3 elements x 4 constructor paths (about 47k collection events), all 48 asset-name orders, plus random longer histories and about 1600 builder scenarios built twice.",
+  "note": "Trusted: TLC, CBOR.tla, harness logging (--selftest rotates the recorded constructor list). Two-process comparison of builds (DESIGN) not built: the nondeterminism found was per HashSet instance and shows within one process.",
+ },
  "C13": {
   "engine": "tlc + csl-conform (spec/trace/Trace_SendAll.tla, spec/lib/LedgerRules.tla, CBOR.tla, Value.tla; harness sendall driver)",
   "technique": "L0 action CreateSendAll in the trace spec: TLC parses every returned transaction from its bytes and checks that the inputs of the batch partition the supplied outpoints, that every output pays the target address, and per transaction Balanced (values from the scenario environment), fee >= a*len+b of the really signed bytes (signer set recomputed from the spent outputs), size limits and min-ADA of every output",
